@@ -36,12 +36,21 @@ func (s schemaSpec) build() *jsonapi.Schema {
 func (s schemaSpec) gallina() string {
 	var ts, ws []string
 	for _, t := range s.types {
-		ts = append(ts, t.gType())
+		ts = append(ts, s.gTypeIn(t))
 		if s.wrapped[t.name] {
 			ws = append(ws, gPair(gStr(t.name), t.gDesc()))
 		}
 	}
 	return fmt.Sprintf("(mkSch (mkSchema %s) %s)", gList(ts), gList(ws))
+}
+
+// gTypeIn prints the type as the schema holds it: built from the struct
+// (relationships carry the type's name) or added as a soft type.
+func (s schemaSpec) gTypeIn(t typeSpec) string {
+	if s.wrapped[t.name] {
+		t.noFrom = false
+	}
+	return t.gType()
 }
 
 func (s schemaSpec) spec(name string) *typeSpec {
